@@ -312,7 +312,8 @@ func (a *Address) populateFromBytes(data []byte) error {
 	// Byron Addresses
 	if a.addressType == AddressTypeByron {
 		var rawAddr byronAddress
-		if _, err := cbor.Decode(data, &rawAddr); err != nil {
+		rawLen, err := cbor.Decode(data, &rawAddr)
+		if err != nil {
 			return err
 		}
 		payloadBytes, ok := rawAddr.Payload.Content.([]byte)
@@ -327,9 +328,24 @@ func (a *Address) populateFromBytes(data []byte) error {
 				"invalid Byron address data: checksum does not match",
 			)
 		}
+		// A Byron address is exactly one CBOR item: anything after it (or
+		// after the wrapped payload item) makes the address malformed
+		if rawLen != len(data) {
+			return fmt.Errorf(
+				"invalid Byron address data: %d unexpected trailing byte(s)",
+				len(data)-rawLen,
+			)
+		}
 		var byronAddr byronAddressPayload
-		if _, err := cbor.Decode(payloadBytes, &byronAddr); err != nil {
+		payloadLen, err := cbor.Decode(payloadBytes, &byronAddr)
+		if err != nil {
 			return err
+		}
+		if payloadLen != len(payloadBytes) {
+			return fmt.Errorf(
+				"invalid Byron address payload: %d unexpected trailing byte(s)",
+				len(payloadBytes)-payloadLen,
+			)
 		}
 		if len(byronAddr.Hash) != AddressHashSize {
 			return errors.New(
